@@ -96,7 +96,11 @@ pub fn build(dir: &str, init: &str, masked: bool, ph: &Phrases) -> (World, Roles
 	}
 	must(w.refresh("w1", 1), "refresh w1");
 	must(w.refresh("w2", 1), "refresh w2");
+	// a second, empty account next to "default" in every wallet state: calls may name it
+	// (src_acct_name / dest_acct_name) and set_active_account may select it
+	must(w.create_account("w1", "acct1"), "create acct1");
 	let mut r = Roles::default();
+	r.nacct = 1;
 	match init {
 		"pendsend" => {
 			must(w.init_send("w1", "sA", &json!({"amt": 1000, "proof": "w2"})), "init sA");
